@@ -324,7 +324,9 @@ extern "C" fn enum_cb(name: *const c_char, ud: *mut c_void) -> bool {
 /// Run `f` on a helper thread; None if it did not return within `secs`.
 fn timed<T: Send + 'static>(secs: u64, f: impl FnOnce() -> T + Send + 'static) -> Option<T> {
     let (tx, rx) = std::sync::mpsc::channel();
+    let inflight = IN_FFI.with(|x| x.get());
     std::thread::spawn(move || {
+        IN_FFI.with(|x| x.set(inflight)); // breadcrumbs follow the call onto the helper thread
         let r = f();
         let _ = tx.send(r);
     });
@@ -2054,14 +2056,36 @@ fn special_probe(c: &mut Case, k: u64, idx: u64, exact: bool, fixtures: &std::pa
                     let ok3 = unsafe { SFileOpenFileEx(h2, name.as_ptr(), 0, &mut fh) };
                     st.end("SFileOpenFileEx", "live-readonly-archive", format!("(pk\\ware.dat)->{ok3}"), ok3);
                     st.c.count(if ok3 { "pkware_member_opened" } else { "pkware_member_refused" }, 1);
+                    let rust = trap(|| Archive::open(&path).and_then(|mut a| a.read_file("pk\\ware.dat")));
+                    if let Ok(rust) = rust {
+                        if ok3 != rust.is_ok() {
+                            st.viol("agreement-exists", "SFileOpenFileEx", "live-readonly-archive", "pkware-member|c!=rust", format!("SFileOpenFileEx = {ok3}, Rust read_file ok = {}", rust.is_ok()));
+                        }
+                        if ok3 {
+                            let b = st.buf(8192);
+                            let mut got = 0u32;
+                            st.begin("SFileReadFile", "live-file");
+                            let okr = unsafe { SFileReadFile(fh, b.ptr() as *mut c_void, 8192, &mut got, ptr::null_mut()) };
+                            st.end("SFileReadFile", "live-file", format!("(n=8192)->{okr},read={got}"), okr);
+                            st.check_canary("SFileReadFile", "live-file", "data", &b);
+                            if let Ok(d) = rust {
+                                if !okr || got as usize != d.len() || b.bytes()[..d.len().min(8192)] != d[..] {
+                                    st.viol("agreement-bytes", "SFileReadFile", "live-file", "pkware-member|bytes!=rust-content", format!("C API read {got} bytes, Rust API {}", d.len()));
+                                }
+                            }
+                        }
+                    }
                     if ok3 {
                         SFileCloseFile(fh);
                     }
+                }
+                if ok2 {
                     SFileCloseArchive(h2);
                 }
             }
         }
     }
+    st.sweep(); // (does nothing when a call never returned)
     let (poisoned, n) = (st.poisoned, st.trace.len());
     drop(st);
     c.count("calls", n as u64);
